@@ -187,6 +187,13 @@ pub fn call_budget(sc: &Scenario) -> u64 {
 
 /// Run `sc` to completion on the calling thread, drawing run-time decisions from `tape`.
 pub fn run_scenario(sc: Scenario, tape: Tape, opts: RunOpts) -> RunRecord {
+    let built = build_tracer(&sc);
+    run_built(sc, built, tape, opts)
+}
+
+/// As `run_scenario`, for a tracer that was built elsewhere (e.g. by the command-line
+/// configuration pipeline); `sc.tracer` must describe it.
+pub fn run_built(sc: Scenario, built: Result<Tracer, String>, tape: Tape, opts: RunOpts) -> RunRecord {
     install_panic_hook();
     let tick_seed = simcore::mix64(u64::from(sc.tracer.initial_seq) ^ (u64::from(sc.net.ecmp_salt) << 20) ^ 0x71c6);
     let t_start = clock::EPOCH_NS + u64::from(sc.net.ecmp_salt % 1000) * 1_000_003;
@@ -194,7 +201,6 @@ pub fn run_scenario(sc: Scenario, tape: Tape, opts: RunOpts) -> RunRecord {
     world.call_budget = call_budget(&sc);
     WORLD.with(|w| *w.borrow_mut() = Some(world));
     let rounds: RefCell<Vec<RoundRec>> = RefCell::new(Vec::new());
-    let built = build_tracer(&sc);
     let mut final_state = None;
     let mut source_addr = None;
     let end = match built {
